@@ -32,7 +32,7 @@ Act(ev) ==
     [] ev.op = "setup"      -> Setup([k \in Keys |-> ev.kv[k]])
     [] ev.op = "preexec"    -> DoPreExec(Strip(ev.prog), ev.amt, ReadKeys(ev))
     [] ev.op = "interleave" -> Interpose(ev.n)
-    [] ev.op = "submit"     -> DoSubmit(T(ev.tk, ev.n, ev.v, ev.j, ev.d, Strip(ev.prog)))
+    [] ev.op = "submit"     -> DoSubmit(T(ev.tk, ev.n, ev.v, ev.j, ev.d, Strip(ev.prog)), ev.res)
 LastEv == hist'[Len(hist')]
 Good(ev) == /\ LastEv.res = ev.res /\ Obs' = ev.obs
             /\ ev.op \in {"preexec", "submit"} => SubsOK(ev.prog)
